@@ -30,6 +30,8 @@ type connection struct {
 	key                  string
 	filter               bool
 	terminalEvent        TerminalEventer
+	// joined 是否加入成功过 没有加入过的连接(key是空字符串)退出时不能去注销 否则会把自定义key为空字符串的在线终端踢掉
+	joined bool
 }
 
 func newConnection(conn *net.TCPConn, handles map[consts.JT808CommandType]Handler, terminalEvent TerminalEventer, filter bool,
@@ -114,6 +116,7 @@ func (c *connection) reader() {
 						if err == nil {
 							join = true
 							c.key = key
+							c.joined = true
 						}
 						c.terminalEvent.OnJoinEvent(msg, key, err)
 						if errors.Is(err, _errKeyExist) {
@@ -169,7 +172,9 @@ func (c *connection) stop() {
 		// 先关闭连接 写协程如果卡在写数据上可以马上返回
 		_ = c.conn.Close()
 		// leave完成以后 不会再有新的主动下发请求路由到这个连接
-		c.leaveFunc(c.key)
+		if c.joined {
+			c.leaveFunc(c.key)
+		}
 		c.terminalEvent.OnLeaveEvent(c.key)
 		// 只关闭stopChan 其他channel不关闭 (写协程和超时协程还可能往里面发送 关闭会导致send on closed channel)
 		// 写协程收到stopChan后 会给所有还在等待的主动下发请求回复失败
